@@ -118,6 +118,23 @@ def run_mc(module, cfg, outdir, workers=NCPU, simulate=None, seed=None, timeout=
     return dict(states=states, distinct=distinct, log=logp, wall=time.time() - t0)
 
 
+def run_apalache(module, steps, outdir, timeout=600):
+    """Apalache inductive-invariant runs on spec/apalache/<module>.tla.  Returns the list of steps proved."""
+    od = os.path.join(outdir, "apalache")
+    done = []
+    for init, inv, length, nxt in steps:
+        shutil.rmtree(od, ignore_errors=True)
+        argv = ["timeout", str(timeout), "apalache-mc", "check", "--init=" + init, "--next=" + nxt, "--inv=" + inv,
+                "--length=%d" % length, "--out-dir=" + od, "--run-dir=" + os.path.join(od, "run"), module + ".tla"]
+        r = subprocess.run(argv, cwd=os.path.join(SPEC, "apalache"), capture_output=True, text=True)
+        if r.returncode != 0 or "EXITCODE: OK" not in r.stdout:
+            raise Infra("Apalache %s: %s => %s (length %d) not proved (the specification itself fails):\n%s"
+                        % (module, init, inv, length, r.stdout[-1500:] + r.stderr[-500:]))
+        done.append("%s /\\ [%s]^%d => %s" % (init, nxt, length, inv))
+    shutil.rmtree(od, ignore_errors=True)
+    return done
+
+
 # ----------------------------------------------------------------- scripts
 def case_id(prop, stage, idx, ops):
     h = hashlib.sha1(json.dumps(ops, sort_keys=True).encode()).hexdigest()[:12]
